@@ -467,9 +467,11 @@ class Phase(Angle):
                 frac += 1
                 count -= 1
 
-            if frac < 0.25:
+            if frac < 0.25 and func is str:
                 # Ensure that we do not get 1e-16, etc., yet can use numpy's
-                # guarantee that the right number of digits is shown.
+                # guarantee that the right number of digits is shown.  (A fixed
+                # precision never uses exponent notation, and the trick below
+                # needs at least two decimals.)
                 frac_str = func(frac + 0.25)
                 f24 = int(frac_str[2:4])
                 if func is str and (
@@ -483,7 +485,8 @@ class Phase(Angle):
                     f24 = "{:02d}".format(f24 - 25)
                 frac_str = frac_str[:2] + f24 + frac_str[4:]
             else:
-                frac_str = func(frac)
+                # frac >= 0 here; abs() only drops the sign of a negative zero.
+                frac_str = func(abs(frac))
                 if frac_str[0] == "1":
                     count += 1
             s = sign + str(int(count)) + frac_str[1:]
